@@ -17,6 +17,19 @@ def run_shard(args):
     elif kind == 'chars':
         _, n, shard = args
         texts = [(t, 'chars len=%d' % l) for t, l in X.shard_strings(R.CHAR_SIGMA, n, shard)]
+    elif kind == 'twodefects':
+        _, paths, d = args
+        texts = []
+        seen = set()
+        for path in paths:
+            for toks, cost in K.sentences(path, d, 'file'):
+                real = [i for i, t in enumerate(toks) if t not in ('NL', 'IND', 'DED')]
+                for i in real[:12]:
+                    for tail in (' $', ' "', ' 0x', ' \\a'):
+                        t = gref.render(toks[:i] + toks[i + 1:]).rstrip('\n') + tail + '\n'
+                        if t not in seen:
+                            seen.add(t)
+                            texts.append((t, 'token deleted + lexical error appended, cost=%d' % cost))
     elif kind == 'layout':
         _, n, shard = args
         texts = [(t, 'layout lexemes n=%d' % l) for t, l in X.shard_strings(R.LAYOUT_LEX, n, shard)]
@@ -50,6 +63,7 @@ def run(tier, seed):
             jobs.append(('corpus', g, dl, start, ('bom', 'comments-crlf-tab') if start == 'file' else ('bom',)))
     n = 3 if tier == 'quick' else 4
     jobs += [('chars', n, s) for s in X.prefix_shards(R.CHAR_SIGMA, n, 1 if tier == 'quick' else 2)]
+    jobs += [('twodefects', g, d - 1) for g in K.group_shards(K.shards_for(d - 1, 'file'), 64)]
     ll = 4 if tier == 'quick' else 5
     jobs += [('layout', ll, s) for s in X.prefix_shards(R.LAYOUT_LEX, ll, 1)]
     jobs.append(('mode',))
